@@ -350,6 +350,11 @@ type ReencCase struct {
 	Tok  tok.Tok `json:"tok"`
 	Kind string  `json:"kind"`
 	Item int     `json:"item"` // pre-order index of the CBOR item the re-encoding is applied to
+	// Resign: after the re-encoding the ISSUER signs the re-encoded header+payload bytes (it has the key; an issuer
+	// with a sloppy encoder, or a malicious one minting several CIDs for one grant). The signature is then valid over
+	// the bytes as they travel - which are not the canonical ones. Canonicity is a property of the accepted bytes,
+	// whoever produced them.
+	Resign bool `json:"resign,omitempty"`
 }
 
 var sigKinds = []string{"sig-ecdsa-s-plus-n", "sig-ecdsa-r-plus-n", "sig-ecdsa-n-minus-s", "sig-der-long-length", "sig-der-padded-int", "sig-der-trailing-byte", "sig-prepend-zero", "sig-append-zero", "sig-drop-leading-zero", "sig-frame-prepend-header", "sig-frame-append-header", "sig-frame-prepend-varsig-prefix", "sig-frame-prepend-length", "sig-frame-prepend-key-code", "sig-frame-doubled", "sig-frame-prepend-ff"}
@@ -497,6 +502,13 @@ func buildVariant(rc ReencCase, sealed []byte) (variant []byte, ok bool) {
 		return nil, false
 	}
 	cbor.Apply(it, rc.Kind)
+	if rc.Resign && len(root.Items) == 2 && rc.Item%cnt >= 2 { // only when the re-encoded item lies in the signed part
+		sig, err := rc.Tok.Issuer().Key().Priv.Sign(root.Items[1].Bytes())
+		if err != nil {
+			return nil, false
+		}
+		root.Items[0] = cbor.BytesItem(sig)
+	}
 	return root.Bytes(), true
 }
 
@@ -579,6 +591,9 @@ func runReenc(c *h.Ctx, rc ReencCase) {
 		}
 		if got != id {
 			sig := "C08/reencode/" + rc.Kind
+			if rc.Resign {
+				sig = "C08/reencode-signed-by-issuer/" + rc.Kind
+			}
 			if isSig {
 				sig = "C08/sigmalleable/" + rc.Kind + "/" + string(alg)
 			}
@@ -609,7 +624,7 @@ var reencProp = h.Define(P, "reencode", func(t *rapid.T) ReencCase {
 		}
 	}
 	return ReencCase{Tok: tok.Gen(t, tok.GenCfg{Algs: algs, NoTopNull: true, OnlyFuture: true, Values: val.Cfg{Depth: 2, MaxLen: 3, SafeInts: true}}),
-		Kind: kind, Item: rapid.IntRange(0, 400).Draw(t, "item")}
+		Kind: kind, Item: rapid.IntRange(0, 400).Draw(t, "item"), Resign: rapid.IntRange(0, 2).Draw(t, "resign") == 1}
 }, runReenc)
 
 func TestReencode(t *testing.T) { reencProp.Check(t) }
@@ -668,6 +683,9 @@ func TestReencodeExhaustive(t *testing.T) {
 				for i := 0; i < cnt; i++ {
 					if cbor.Applicable(root.Nth(i), kind) {
 						reencProp.One(t, ReencCase{Tok: d, Kind: kind, Item: i})
+						if i >= 2 { // inside the signed part: the same re-encoding, signed by the issuer
+							reencProp.One(t, ReencCase{Tok: d, Kind: kind, Item: i, Resign: true})
+						}
 					}
 				}
 			}
